@@ -151,12 +151,7 @@ theorem C05_int (n : Int) (hlo : longMin ≤ n) (hhi : n ≤ longMax) : convInt 
   by_cases hneg : n < 0
   · simp only [hneg, if_true]
     obtain ⟨h1, h2, c, cs, h3, h4, h5, h6⟩ := decDigits_spec n.natAbs
-    have hz : signPrefixZone (c_minus :: decDigits n.natAbs) = false := by
-      rw [h3]
-      have : c ≠ 48 := h4 (by omega)
-      unfold signPrefixZone
-      cases cs <;> simp [this]
-    rw [C04_int _ hz]
+    rw [C04_int _]
     unfold intExpected intNumeral
     have hne : (decDigits n.natAbs).isEmpty = false := by rw [h3]; rfl
     simp only [hne, h1, Bool.not_false, Bool.and_self, if_true, h2]
